@@ -132,7 +132,7 @@ def main(argv=None):
                 os.makedirs(a.out, exist_ok=True)
                 path = os.path.join(a.out, f"{prop}-{a.seed}-{index}.json")
                 with open(path, "w") as f:
-                    json.dump(rec, f, indent=1, sort_keys=True, default=core._json_default)
+                    json.dump(rec, f, indent=1, default=core._json_default)
                 rec = {k: rec[k] for k in rec if k != "case"}
                 rec["path"] = path
             violations.append(rec)
